@@ -81,6 +81,8 @@ def box_exprs(b):
             return box_exprs(b["a"][0])
     if b["k"] == "zx" and isinstance(b.get("ph"), str):
         return [b["ph"]]
+    if b["k"] == "bubble":
+        return [e for x, _ in b["inside"]["layers"] for e in box_exprs(x)]
     if b["k"] == "box" and "svals" in b:
         return [v for v in b["svals"] if isinstance(v, str)]
     return []
@@ -196,10 +198,14 @@ def to_complex(arr, env):
     import sympy
     out = []
     for e in np.asarray(arr, dtype=object).flatten():
-        if hasattr(e, "subs"):
-            e = e.subs({sym(k): v for k, v in env.items()})
-            e = complex(sympy.N(e))
-        out.append(complex(e))
+        try:
+            if hasattr(e, "subs"):
+                e = e.subs({sym(k): v for k, v in env.items()})
+                e = complex(sympy.N(e))
+            out.append(complex(e))
+        except TypeError:
+            raise Violation("C14:value-not-numeric-after-full-substitution",
+                            "entry {!r} of {!r}".format(e, arr)[:600])
     return np.array(out, dtype=complex)
 
 
@@ -340,7 +346,8 @@ def check_circuit(case):
 def tensor_cases(draw, tier):
     entry = st.one_of(st.sampled_from(EXPRS), st.integers(-2, 2),
                       st.sampled_from(EXPRS))
-    scan, layers = [], []
+    dom = draw(st.sampled_from([[], [], [[2, 0]]]))
+    scan, layers = [list(w) for w in dom], []
     for k in range(draw(st.integers(1, 3))):
         nd = draw(st.integers(0, min(1, len(scan))))
         off = draw(st.integers(0, len(scan) - nd))
@@ -350,8 +357,12 @@ def tensor_cases(draw, tier):
              "cod": [[2, 0]] * nc, "dag": False, "svals": svals}
         layers.append([b, off])
         scan = scan[:off] + [[2, 0]] * nc + scan[off + nd:]
-    spec = {"cls": "tensor", "dom": [], "layers": layers}
+    spec = {"cls": "tensor", "dom": dom, "layers": layers}
     return {"d": spec, "plan": draw(subs_plans(spec_symbols(spec) or {"x"}))}
+
+
+SYMBOLIC_FUNCS = {"square": lambda t: t ** 2, "double": lambda t: 2 * t,
+                  "plus1": lambda t: t + 1, "cube": lambda t: t ** 3}
 
 
 def build_symbolic_tensor(spec):
@@ -359,13 +370,22 @@ def build_symbolic_tensor(spec):
     from discopy.tensor import Dim
     boxes, offsets = [], []
     for b, off in spec["layers"]:
+        if b["k"] == "bubble":
+            boxes.append(build_symbolic_tensor(b["inside"]).bubble(
+                func=SYMBOLIC_FUNCS[b["f"]]))
+            offsets.append(off)
+            continue
         data = [qspec.num(v) if isinstance(v, str) else v
                 for v in b["svals"]]
+        if len(data) >= 4:  # nested lists: substitution must recurse
+            half = len(data) // 2
+            data = [data[:half], data[half:]]
         boxes.append(tensor.Box(b["name"], Dim(*[2] * len(b["dom"])),
                                 Dim(*[2] * len(b["cod"])), data))
         offsets.append(off)
     cod = specs.spec_cod(spec)
-    return tensor.Diagram(Dim(), Dim(*[2] * len(cod)), boxes, offsets)
+    return tensor.Diagram(Dim(*[2] * len(spec["dom"])),
+                          Dim(*[2] * len(cod)), boxes, offsets)
 
 
 def check_tensor(case):
